@@ -84,18 +84,61 @@ pub fn install_provider() {
     let _ = rustls::crypto::ring::default_provider().install_default();
 }
 
+/// ALPN offers encoded in the case: bit0 client h2, bit1 client http/1.1, bit2 server h2, bit3 server
+/// http/1.1, bit4 client also offers "h3" (first), bit5 server also offers "h3" (first, i.e. preferred).
+/// Returns (client list, server list) in offer / preference order.
+pub fn alpn_lists(alpn: u8) -> (Vec<&'static [u8]>, Vec<&'static [u8]>) {
+    let mut c: Vec<&'static [u8]> = vec![];
+    let mut s: Vec<&'static [u8]> = vec![];
+    if alpn & 16 != 0 {
+        c.push(b"h3");
+    }
+    if alpn & 1 != 0 {
+        c.push(b"h2");
+    }
+    if alpn & 2 != 0 {
+        c.push(b"http/1.1");
+    }
+    if alpn & 32 != 0 {
+        s.push(b"h3");
+    }
+    if alpn & 4 != 0 {
+        s.push(b"h2");
+    }
+    if alpn & 8 != 0 {
+        s.push(b"http/1.1");
+    }
+    (c, s)
+}
+
+#[derive(Clone, Debug, PartialEq)]
+pub enum AlpnOutcome {
+    /// one side offered nothing: no protocol is negotiated
+    None,
+    /// both offered, nothing in common: the handshake is refused
+    Conflict,
+    /// the server's first preference among the client's offers
+    Proto(&'static [u8]),
+}
+
+pub fn alpn_outcome(alpn: u8) -> AlpnOutcome {
+    let (c, s) = alpn_lists(alpn);
+    if c.is_empty() || s.is_empty() {
+        return AlpnOutcome::None;
+    }
+    match s.iter().find(|p| c.contains(p)) {
+        Some(p) => AlpnOutcome::Proto(p),
+        None => AlpnOutcome::Conflict,
+    }
+}
+
 pub fn client_config(alpn: u8) -> rustls::ClientConfig {
     let mut roots = rustls::RootCertStore::empty();
     for c in pem_certs(include_bytes!("../../../fixtures/tls/ca.pem")) {
         roots.add(c).unwrap();
     }
     let mut cfg = rustls::ClientConfig::builder().with_root_certificates(roots).with_no_client_auth();
-    if alpn & 1 != 0 {
-        cfg.alpn_protocols.push(b"h2".to_vec());
-    }
-    if alpn & 2 != 0 {
-        cfg.alpn_protocols.push(b"http/1.1".to_vec());
-    }
+    cfg.alpn_protocols = alpn_lists(alpn).0.into_iter().map(|p| p.to_vec()).collect();
     cfg
 }
 
@@ -121,12 +164,7 @@ pub fn server_config(which: u8, alpn: u8, seen: Arc<Mutex<Vec<Option<String>>>>)
     let signing = provider.key_provider.load_private_key(pem_key(key)).expect("signing key");
     let ck = Arc::new(rustls::sign::CertifiedKey::new(pem_certs(cert), signing));
     let mut cfg = rustls::ServerConfig::builder().with_no_client_auth().with_cert_resolver(Arc::new(RecordingResolver { key: ck, seen }));
-    if alpn & 4 != 0 {
-        cfg.alpn_protocols.push(b"h2".to_vec());
-    }
-    if alpn & 8 != 0 {
-        cfg.alpn_protocols.push(b"http/1.1".to_vec());
-    }
+    cfg.alpn_protocols = alpn_lists(alpn).1.into_iter().map(|p| p.to_vec()).collect();
     cfg
 }
 
@@ -436,8 +474,7 @@ impl Engine for TlsEngine {
                 rep.violate("C12/secret-in-the-clear", desc.clone());
             }
             // rustls refuses the handshake when both sides offer ALPN protocols without overlap
-            let (c_h2, c_h1, s_h2, s_h1) = (c.alpn & 1 != 0, c.alpn & 2 != 0, c.alpn & 4 != 0, c.alpn & 8 != 0);
-            let alpn_conflict = (c_h2 || c_h1) && (s_h2 || s_h1) && !((c_h2 && s_h2) || (c_h1 && s_h1));
+            let alpn_conflict = alpn_outcome(c.alpn) == AlpnOutcome::Conflict;
             if alpn_conflict {
                 rep.class("alpn-no-overlap");
             }
@@ -522,7 +559,7 @@ pub fn strategy() -> impl proptest::strategy::Strategy<Value = TlsCase> {
         prop_oneof![2 => Just(None), 1 => Just(Some(443u16)), 1 => Just(Some(8443u16)), 1 => any::<u16>().prop_map(Some)],
         prop_oneof![4 => Just(0u8), 1 => Just(1u8), 1 => Just(2u8), 1 => Just(3u8), 1 => Just(4u8), 1 => Just(5u8), 1 => Just(6u8)],
         any::<u16>(),
-        0u8..16,
+        prop_oneof![3 => 0u8..16, 1 => 16u8..64],
         prop_oneof![5 => Just(true), 1 => Just(false)],
     )
         .prop_map(|(scheme, (host, ghost), port, peer, arg, alpn, client_tls)| TlsCase { scheme, host, ghost, port, peer, arg, alpn, client_tls })
